@@ -182,6 +182,124 @@ def gen_cloud_pair(rng, cls, scale=1.0):
 CLOUD_CLASSES = ["random", "clustered", "grid", "collinear", "duplicated", "curves"]
 
 
+def judge_clouds(ctx, cls, it, scale, pu, ps, Xu, Xs, tiu, tis, eps, dv_tol, bal_tol, res):
+    """Brute-force oracle for one back-end execution: request clouds (pu, ps, Xu, Xs, ...) and the results it returned."""
+    from hiten.algorithms.connections.backends import _nearest_neighbor_2d, _radius_pairs_2d
+
+    def wit():
+        return {"class": cls, "scale": scale, "nu": len(pu), "ns": len(ps), "eps": eps, "dv_tol": dv_tol, "bal_tol": bal_tol,
+                "pu": pu, "ps": ps, "seed": ctx.seed, "index": it}
+    ctx.case(f"clouds:{cls}", [it, ctx.seed, len(pu), len(ps), eps], nontrivial=len(res) > 0)
+    if it < 3:
+        ctx.sample({"class": cls, "nu": len(pu), "ns": len(ps), "eps": eps, "dv_tol": dv_tol, "bal_tol": bal_tol, "n_results": len(res)})
+    if len(pu) == 0 or len(ps) == 0:
+        ctx.check(len(res) == 0, "K:empty cloud gives no connection", wit)
+        return
+    D = np.hypot(pu[:, None, 0] - ps[None, :, 0], pu[:, None, 1] - ps[None, :, 1])
+    D2 = (pu[:, None, 0] - ps[None, :, 0]) ** 2 + (pu[:, None, 1] - ps[None, :, 1]) ** 2
+    within = D2 <= eps * eps * (1 + 1e-12)
+    dvs = [r.delta_v for r in res]
+    ctx.check(all(a <= b for a, b in zip(dvs[:-1], dvs[1:])), "K:results sorted by delta_v", lambda: {**wit(), "dv": dvs})
+    seen_i, seen_j = set(), set()
+    nn_u = np.asarray(_nearest_neighbor_2d(pu)) if len(pu) >= 2 else None
+    nn_s = np.asarray(_nearest_neighbor_2d(ps)) if len(ps) >= 2 else None
+    for r in res:
+        i, j = r.index_u, r.index_s
+        ctx.check(i not in seen_i and j not in seen_j, "K:each section point used at most once", lambda: {**wit(), "i": i, "j": j})
+        seen_i.add(i)
+        seen_j.add(j)
+        ctx.check(bool(within[i, j]), "K:pair within search radius", lambda: {**wit(), "i": i, "j": j, "d": D[i, j]})
+        rowmin = np.min(np.where(within[i], D2[i], np.inf))
+        colmin = np.min(np.where(within[:, j], D2[:, j], np.inf))
+        ctx.check(D2[i, j] <= rowmin * (1 + 1e-12) and D2[i, j] <= colmin * (1 + 1e-12), "K:pair is mutually nearest",
+                  lambda: {**wit(), "i": i, "j": j, "d2": D2[i, j], "rowmin": rowmin, "colmin": colmin})
+        dv_ref = float(np.linalg.norm(np.asarray(r.state_u)[3:6] - np.asarray(r.state_s)[3:6]))
+        ctx.check(r.delta_v == dv_ref, "K:delta_v == |v_u - v_s| of the reported states (bitwise)",
+                  lambda: {**wit(), "lib": r.delta_v, "ref": dv_ref})
+        ctx.check(r.delta_v <= dv_tol, "K:delta_v <= dv_tol", lambda: {**wit(), "dv": r.delta_v})
+        near_thr = abs(r.delta_v - bal_tol) <= 4 * np.finfo(float).eps * bal_tol
+        ctx.check(near_thr or ((r.kind == "ballistic") == (r.delta_v <= bal_tol)), "K:ballistic iff delta_v <= bal_tol",
+                  lambda: {**wit(), "dv": r.delta_v, "kind": r.kind})
+        ctx.check(r.kind in ("ballistic", "impulsive"), "K:kind label", {"kind": r.kind})
+        if tiu is not None:
+            ctx.check(r.trajectory_index_u == int(tiu[i]), "K:trajectory index u", wit)
+        if tis is not None:
+            ctx.check(r.trajectory_index_s == int(tis[j]), "K:trajectory index s", wit)
+        # refined meeting point: midpoint of the truly closest points of the two local section segments
+        su = np.asarray(r.state_u)
+        ss = np.asarray(r.state_s)
+        if nn_u is None or nn_s is None:
+            ctx.check(np.array_equal(su, Xu[i]) and np.array_equal(ss, Xs[j]) and tuple(r.point2d) == (pu[i, 0], pu[i, 1]),
+                      "K:no local segment -> original pair reported", wit)
+            continue
+        iu, js = int(nn_u[i]), int(nn_s[j])
+        a0, a1, b0, b1 = pu[i], pu[iu], ps[j], ps[js]
+
+        def recover(x, x0, x1):
+            d = x1 - x0
+            L2 = float(d @ d)
+            if L2 == 0:
+                return 0.0, float(np.abs(x - x0).max())
+            s_ = float((x - x0) @ d) / L2
+            return s_, float(np.abs(x - (x0 + s_ * d)).max())
+        s_, rs = recover(su, Xu[i], Xu[iu])
+        t_, rt = recover(ss, Xs[j], Xs[js])
+        sc = max(np.abs(Xu).max(), np.abs(Xs).max(), 1e-300)
+        ctx.check(rs <= 1e-12 * sc and rt <= 1e-12 * sc and -1e-12 <= s_ <= 1 + 1e-12 and -1e-12 <= t_ <= 1 + 1e-12,
+                  "K:reported states lie on the local segments", lambda: {**wit(), "i": i, "j": j, "s": s_, "t": t_, "res": [rs, rt]})
+        p = a0 + s_ * (a1 - a0)
+        q = b0 + t_ * (b1 - b0)
+        scale = max(np.abs(pu).max(), np.abs(ps).max())
+        mid_ok = np.abs(np.asarray(r.point2d) - 0.5 * (p + q)).max() <= 1e-9 * scale
+        orig_ok = (s_ == 0 and t_ == 0 and tuple(r.point2d) == (pu[i, 0], pu[i, 1]))
+        degenerate_seg = (iu == i or js == j)
+        if degenerate_seg:
+            ctx.check(orig_ok or mid_ok, "K:fallback point for points without a local segment", wit)
+            continue
+        dl = float(np.hypot(*(p - q)))
+        dtrue = seg_seg_distance(a0, a1, b0, b1)
+        u, v = a1 - a0, b1 - b0
+        den = (u @ u) * (v @ v) - (u @ v) ** 2
+        tol = 1e-9 * scale + 1e-9 * dtrue
+        mech = None
+        if dl - dtrue > tol and den <= 1e-12 * max((u @ u) * (v @ v), 1e-300):
+            mech = MECH_DEGENERATE
+        ctx.check(mid_ok, "K:point2d is the midpoint of the reported closest points",
+                  lambda: {**wit(), "i": i, "j": j, "point2d": r.point2d, "mid": 0.5 * (p + q)})
+        ctx.check(dl - dtrue <= tol, "K:refined points are the truly closest points of the local segments",
+                  lambda: {**wit(), "i": i, "j": j, "lib_distance": dl, "true_distance": dtrue, "a0": a0, "a1": a1, "b0": b0, "b1": b1}, mech)
+    # completeness: every strictly mutual nearest pair within eps whose (vertex) mismatch is far below dv_tol must appear
+    for i in range(len(pu)):
+        row = np.where(within[i], D2[i], np.inf)
+        j = int(np.argmin(row))
+        if not np.isfinite(row[j]):
+            continue
+        col = np.where(within[:, j], D2[:, j], np.inf)
+        strict_row = np.sum(row <= row[j] * (1 + 1e-9) + 1e-300) == 1
+        strict_col = np.sum(col <= col[i] * (1 + 1e-9) + 1e-300) == 1 and int(np.argmin(col)) == i
+        if strict_row and strict_col and D2[i, j] <= eps * eps * (1 - 1e-9):
+            # velocity mismatch of *any* point on the two local segments is bounded by the max over segment ends
+            cand_u = [Xu[i, 3:6]] + ([Xu[int(nn_u[i]), 3:6]] if nn_u is not None else [])
+            cand_s = [Xs[j, 3:6]] + ([Xs[int(nn_s[j]), 3:6]] if nn_s is not None else [])
+            dvmax = max(np.linalg.norm(a - b) for a in cand_u for b in cand_s)
+            if dvmax <= dv_tol * (1 - 1e-9):
+                ctx.check(any(r.index_u == i and r.index_s == j for r in res), "K:every admissible mutual pair reported",
+                          lambda: {**wit(), "i": i, "j": j, "dvmax": dvmax})
+    # radius search kernel against brute force
+    pr = np.asarray(_radius_pairs_2d(pu, ps, eps))
+    got = set(map(tuple, pr.tolist()))
+    strict_in = set(zip(*np.nonzero(D2 <= eps * eps * (1 - 1e-12))))
+    loose_in = set(zip(*np.nonzero(D2 <= eps * eps * (1 + 1e-12))))
+    ctx.check(strict_in <= got <= loose_in and len(got) == len(pr), "K:radius pairs == brute force",
+              lambda: {**wit(), "missing": sorted(strict_in - got)[:5], "extra": sorted(got - loose_in)[:5]})
+    if nn_u is not None:
+        Du = np.hypot(pu[:, None, 0] - pu[None, :, 0], pu[:, None, 1] - pu[None, :, 1]) + np.diag(np.full(len(pu), np.inf))
+        ctx.check(all(Du[k, nn_u[k]] <= Du[k].min() * (1 + 1e-12) + 1e-300 and nn_u[k] != k for k in range(len(pu))),
+                  "K:nearest neighbour == brute force", wit)
+
+
+
+
 def clouds(ctx, n):
     from hiten.algorithms.connections.backends import _ConnectionsBackend, _nearest_neighbor_2d, _radius_pairs_2d
     from hiten.algorithms.connections.types import ConnectionsBackendRequest
@@ -201,121 +319,186 @@ def clouds(ctx, n):
         req = ConnectionsBackendRequest(points_u=pu.copy(), points_s=ps.copy(), states_u=Xu.copy(), states_s=Xs.copy(),
                                         traj_indices_u=tiu, traj_indices_s=tis, eps=eps, dv_tol=dv_tol, bal_tol=bal_tol)
 
-        def wit():
-            return {"class": cls, "scale": scale, "nu": len(pu), "ns": len(ps), "eps": eps, "dv_tol": dv_tol, "bal_tol": bal_tol,
-                    "pu": pu, "ps": ps, "seed": ctx.seed, "index": it}
         try:
             res = be.run(req).results
         except Exception as exc:
-            ctx.check(False, "K:backend returns", lambda: {**wit(), "error": repr(exc)[:300]})
+            ctx.check(False, "K:backend returns", {"class": cls, "scale": scale, "nu": len(pu), "ns": len(ps), "eps": eps, "dv_tol": dv_tol,
+                                                   "bal_tol": bal_tol, "pu": pu, "ps": ps, "seed": ctx.seed, "index": it, "error": repr(exc)[:300]})
             continue
-        ctx.case(f"clouds:{cls}", [it, ctx.seed, len(pu), len(ps), eps], nontrivial=len(res) > 0)
-        if it < 3:
-            ctx.sample({"class": cls, "nu": len(pu), "ns": len(ps), "eps": eps, "dv_tol": dv_tol, "bal_tol": bal_tol, "n_results": len(res)})
-        if len(pu) == 0 or len(ps) == 0:
-            ctx.check(len(res) == 0, "K:empty cloud gives no connection", wit)
-            continue
-        D = np.hypot(pu[:, None, 0] - ps[None, :, 0], pu[:, None, 1] - ps[None, :, 1])
-        D2 = (pu[:, None, 0] - ps[None, :, 0]) ** 2 + (pu[:, None, 1] - ps[None, :, 1]) ** 2
-        within = D2 <= eps * eps * (1 + 1e-12)
-        dvs = [r.delta_v for r in res]
-        ctx.check(all(a <= b for a, b in zip(dvs[:-1], dvs[1:])), "K:results sorted by delta_v", lambda: {**wit(), "dv": dvs})
-        seen_i, seen_j = set(), set()
-        nn_u = np.asarray(_nearest_neighbor_2d(pu)) if len(pu) >= 2 else None
-        nn_s = np.asarray(_nearest_neighbor_2d(ps)) if len(ps) >= 2 else None
-        for r in res:
-            i, j = r.index_u, r.index_s
-            ctx.check(i not in seen_i and j not in seen_j, "K:each section point used at most once", lambda: {**wit(), "i": i, "j": j})
-            seen_i.add(i)
-            seen_j.add(j)
-            ctx.check(bool(within[i, j]), "K:pair within search radius", lambda: {**wit(), "i": i, "j": j, "d": D[i, j]})
-            rowmin = np.min(np.where(within[i], D2[i], np.inf))
-            colmin = np.min(np.where(within[:, j], D2[:, j], np.inf))
-            ctx.check(D2[i, j] <= rowmin * (1 + 1e-12) and D2[i, j] <= colmin * (1 + 1e-12), "K:pair is mutually nearest",
-                      lambda: {**wit(), "i": i, "j": j, "d2": D2[i, j], "rowmin": rowmin, "colmin": colmin})
-            dv_ref = float(np.linalg.norm(np.asarray(r.state_u)[3:6] - np.asarray(r.state_s)[3:6]))
-            ctx.check(r.delta_v == dv_ref, "K:delta_v == |v_u - v_s| of the reported states (bitwise)",
-                      lambda: {**wit(), "lib": r.delta_v, "ref": dv_ref})
-            ctx.check(r.delta_v <= dv_tol, "K:delta_v <= dv_tol", lambda: {**wit(), "dv": r.delta_v})
-            near_thr = abs(r.delta_v - bal_tol) <= 4 * np.finfo(float).eps * bal_tol
-            ctx.check(near_thr or ((r.kind == "ballistic") == (r.delta_v <= bal_tol)), "K:ballistic iff delta_v <= bal_tol",
-                      lambda: {**wit(), "dv": r.delta_v, "kind": r.kind})
-            ctx.check(r.kind in ("ballistic", "impulsive"), "K:kind label", {"kind": r.kind})
-            if tiu is not None:
-                ctx.check(r.trajectory_index_u == int(tiu[i]), "K:trajectory index u", wit)
-            if tis is not None:
-                ctx.check(r.trajectory_index_s == int(tis[j]), "K:trajectory index s", wit)
-            # refined meeting point: midpoint of the truly closest points of the two local section segments
-            su = np.asarray(r.state_u)
-            ss = np.asarray(r.state_s)
-            if nn_u is None or nn_s is None:
-                ctx.check(np.array_equal(su, Xu[i]) and np.array_equal(ss, Xs[j]) and tuple(r.point2d) == (pu[i, 0], pu[i, 1]),
-                          "K:no local segment -> original pair reported", wit)
-                continue
-            iu, js = int(nn_u[i]), int(nn_s[j])
-            a0, a1, b0, b1 = pu[i], pu[iu], ps[j], ps[js]
+        judge_clouds(ctx, cls, it, scale, pu, ps, Xu, Xs, tiu, tis, eps, dv_tol, bal_tol, res)
 
-            def recover(x, x0, x1):
-                d = x1 - x0
-                L2 = float(d @ d)
-                if L2 == 0:
-                    return 0.0, float(np.abs(x - x0).max())
-                s_ = float((x - x0) @ d) / L2
-                return s_, float(np.abs(x - (x0 + s_ * d)).max())
-            s_, rs = recover(su, Xu[i], Xu[iu])
-            t_, rt = recover(ss, Xs[j], Xs[js])
-            sc = max(np.abs(Xu).max(), np.abs(Xs).max(), 1e-300)
-            ctx.check(rs <= 1e-12 * sc and rt <= 1e-12 * sc and -1e-12 <= s_ <= 1 + 1e-12 and -1e-12 <= t_ <= 1 + 1e-12,
-                      "K:reported states lie on the local segments", lambda: {**wit(), "i": i, "j": j, "s": s_, "t": t_, "res": [rs, rt]})
-            p = a0 + s_ * (a1 - a0)
-            q = b0 + t_ * (b1 - b0)
-            scale = max(np.abs(pu).max(), np.abs(ps).max())
-            mid_ok = np.abs(np.asarray(r.point2d) - 0.5 * (p + q)).max() <= 1e-9 * scale
-            orig_ok = (s_ == 0 and t_ == 0 and tuple(r.point2d) == (pu[i, 0], pu[i, 1]))
-            degenerate_seg = (iu == i or js == j)
-            if degenerate_seg:
-                ctx.check(orig_ok or mid_ok, "K:fallback point for points without a local segment", wit)
+
+
+# ------------------------------------------------------------------ end to end: ConnectionPipeline.solve on real manifolds
+AX = {"x": 0, "y": 1, "z": 2, "vx": 3, "vy": 4, "vz": 5}
+
+
+def _crossings(traj, axis, offset):
+    """Independent detection on the stored samples: indices k of segments [k, k+1] across which g = state[axis] - offset changes sign
+    (or whose left end lies exactly on the surface)."""
+    X = np.asarray(traj.states, dtype=float)
+    g = X[:, axis] - offset
+    ks = [k for k in range(len(g) - 1) if (g[k] == 0.0) or (g[k] * g[k + 1] < 0.0)]
+    if len(g) and g[-1] == 0.0:
+        ks.append(len(g) - 2)
+    return X, g, ks
+
+
+def endtoend(ctx, n_solves):
+    """Public path: ConnectionPipeline.solve(source, target, options) on computed manifolds. The back-end request is recorded at the
+    engine/back-end boundary (interposition on _ConnectionsBackend.run); the clouds it carries are compared with an independent
+    crossing detection on the manifolds' own trajectories, the options with those handed to solve(), the results with brute force."""
+    from hiten import System
+    from hiten.algorithms.connections import ConnectionPipeline
+    from hiten.algorithms.connections.backends import _ConnectionsBackend
+    from hiten.algorithms.connections.config import ConnectionConfig
+    from hiten.algorithms.connections.options import ConnectionOptions
+    from hiten.algorithms.poincare import SynodicMapConfig
+    rng = ctx.rng
+    system = System.from_bodies("earth", "moon")
+    mu = float(system.mu)
+    l1, l2 = system.get_libration_point(1), system.get_libration_point(2)
+    o1 = l1.create_orbit("halo", amplitude_z=0.2, zenith="southern")
+    o1.correct()
+    o1.propagate()
+    o2 = l2.create_orbit("halo", amplitude_z=0.2, zenith="northern")
+    o2.correct()
+    o2.propagate()
+    mans = {}
+
+    def manifold(which, stable, direction, fraction=0.8):
+        key = (which, stable, direction, fraction)
+        if key not in mans:
+            m = (o1 if which == 1 else o2).manifold(stable=stable, direction=direction)
+            m.compute(step=0.05, integration_fraction=fraction)
+            mans[key] = m
+        return mans[key]
+
+    recorded = []
+    orig = _ConnectionsBackend.run
+
+    def rec(self, request=None, *a, **kw):
+        out = orig(self, request, *a, **kw) if request is not None else orig(self, *a, **kw)
+        recorded.append((request if request is not None else (a[0] if a else None), out))
+        return out
+    _ConnectionsBackend.run = rec
+    try:
+        # (source, target): unstable of L1 towards the Moon with stable of L2 towards the Moon, and the reverse roles / order
+        # unstable/stable branches whose section clouds overlap (same neighbourhood of the Moon), in both argument orders, and one
+        # L1-L2 pair with a longer stable branch
+        pairs = [((1, False, "positive"), (1, True, "positive")), ((2, False, "negative"), (2, True, "negative")),
+                 ((1, True, "positive"), (1, False, "positive")), ((2, False, "positive"), (2, True, "negative")),
+                 ((1, False, "positive"), (2, True, "negative", 1.6))]
+        sections = [("y", 0.0, ("x", "z")), ("y", 0.0, ("x", "vx")), ("y", 0.01, ("x", "z")), ("x", 1 - mu, ("y", "z")), ("y", -0.02, ("x", "vx")), ("x", 1 - mu, ("y", "vy"))]
+        for it in range(n_solves):
+            if not ctx.mine(it):
                 continue
-            dl = float(np.hypot(*(p - q)))
-            dtrue = seg_seg_distance(a0, a1, b0, b1)
-            u, v = a1 - a0, b1 - b0
-            den = (u @ u) * (v @ v) - (u @ v) ** 2
-            tol = 1e-9 * scale + 1e-9 * dtrue
-            mech = None
-            if dl - dtrue > tol and den <= 1e-12 * max((u @ u) * (v @ v), 1e-300):
-                mech = MECH_DEGENERATE
-            ctx.check(mid_ok, "K:point2d is the midpoint of the reported closest points",
-                      lambda: {**wit(), "i": i, "j": j, "point2d": r.point2d, "mid": 0.5 * (p + q)})
-            ctx.check(dl - dtrue <= tol, "K:refined points are the truly closest points of the local segments",
-                      lambda: {**wit(), "i": i, "j": j, "lib_distance": dl, "true_distance": dtrue, "a0": a0, "a1": a1, "b0": b0, "b1": b1}, mech)
-        # completeness: every strictly mutual nearest pair within eps whose (vertex) mismatch is far below dv_tol must appear
-        for i in range(len(pu)):
-            row = np.where(within[i], D2[i], np.inf)
-            j = int(np.argmin(row))
-            if not np.isfinite(row[j]):
+            ksrc, ktgt = pairs[it % len(pairs)]
+            src, tgt = manifold(*ksrc), manifold(*ktgt)
+            axis_name, offset, plane = sections[int(rng.integers(len(sections)))]
+            direction = [None, None, 1, -1][int(rng.integers(4))]
+            eps = float(10.0 ** rng.uniform(-1.7, -0.3))
+            dv_tol = float(10.0 ** rng.uniform(-1.0, 0.7))
+            bal_tol = float(dv_tol * 10.0 ** rng.uniform(-3, 0.3))
+            cfg = ConnectionConfig(section=SynodicMapConfig(section_axis=axis_name, section_offset=offset, plane_coords=plane), direction=direction)
+            opt = ConnectionOptions(delta_v_tol=dv_tol, ballistic_tol=bal_tol, eps2d=eps)
+            wit = {"source": ksrc, "target": ktgt, "section_axis": axis_name, "offset": offset, "plane": plane, "direction": direction,
+                   "eps2d": eps, "delta_v_tol": dv_tol, "ballistic_tol": bal_tol, "seed": ctx.seed, "index": it}
+            conn = ConnectionPipeline.with_default_engine(config=cfg)
+            del recorded[:]
+            try:
+                ret = conn.solve(src, tgt, options=opt)
+            except (ValueError, RuntimeError) as exc:
+                ctx.count("E:solve declined (raised a domain error) — accepted")
                 continue
-            col = np.where(within[:, j], D2[:, j], np.inf)
-            strict_row = np.sum(row <= row[j] * (1 + 1e-9) + 1e-300) == 1
-            strict_col = np.sum(col <= col[i] * (1 + 1e-9) + 1e-300) == 1 and int(np.argmin(col)) == i
-            if strict_row and strict_col and D2[i, j] <= eps * eps * (1 - 1e-9):
-                # velocity mismatch of *any* point on the two local segments is bounded by the max over segment ends
-                cand_u = [Xu[i, 3:6]] + ([Xu[int(nn_u[i]), 3:6]] if nn_u is not None else [])
-                cand_s = [Xs[j, 3:6]] + ([Xs[int(nn_s[j]), 3:6]] if nn_s is not None else [])
-                dvmax = max(np.linalg.norm(a - b) for a in cand_u for b in cand_s)
-                if dvmax <= dv_tol * (1 - 1e-9):
-                    ctx.check(any(r.index_u == i and r.index_s == j for r in res), "K:every admissible mutual pair reported",
-                              lambda: {**wit(), "i": i, "j": j, "dvmax": dvmax})
-        # radius search kernel against brute force
-        pr = np.asarray(_radius_pairs_2d(pu, ps, eps))
-        got = set(map(tuple, pr.tolist()))
-        strict_in = set(zip(*np.nonzero(D2 <= eps * eps * (1 - 1e-12))))
-        loose_in = set(zip(*np.nonzero(D2 <= eps * eps * (1 + 1e-12))))
-        ctx.check(strict_in <= got <= loose_in and len(got) == len(pr), "K:radius pairs == brute force",
-                  lambda: {**wit(), "missing": sorted(strict_in - got)[:5], "extra": sorted(got - loose_in)[:5]})
-        if nn_u is not None:
-            Du = np.hypot(pu[:, None, 0] - pu[None, :, 0], pu[:, None, 1] - pu[None, :, 1]) + np.diag(np.full(len(pu), np.inf))
-            ctx.check(all(Du[k, nn_u[k]] <= Du[k].min() * (1 + 1e-12) + 1e-300 and nn_u[k] != k for k in range(len(pu))),
-                      "K:nearest neighbour == brute force", wit)
+            ctx.check(len(recorded) == 1, "E:one back-end execution per solve (observed at the back-end boundary)", {**wit, "n": len(recorded)})
+            if len(recorded) != 1:
+                continue
+            req, out = recorded[0]
+            res = list(out.results)
+            pu, ps = np.asarray(req.points_u, dtype=float).reshape(-1, 2), np.asarray(req.points_s, dtype=float).reshape(-1, 2)
+            Xu, Xs = np.asarray(req.states_u, dtype=float).reshape(-1, 6), np.asarray(req.states_s, dtype=float).reshape(-1, 6)
+            ctx.case("endtoend", [it, ctx.seed, ksrc, ktgt, axis_name, offset, plane, direction, eps, dv_tol], nontrivial=len(res) > 0)
+            if it < 2:
+                ctx.sample({**wit, "n_section_points_source": len(pu), "n_section_points_target": len(ps), "n_connections": len(res)})
+            ctx.check(float(req.eps) == eps and float(req.dv_tol) == dv_tol and float(req.bal_tol) == bal_tol,
+                      "E:search radius, mismatch limit and ballistic tolerance reach the search as configured",
+                      {**wit, "request": [req.eps, req.dv_tol, req.bal_tol]})
+            ax = AX[axis_name]
+            pidx = [AX[c] for c in plane]
+            for side, man, P, X, ti in (("source", src, pu, Xu, req.traj_indices_u), ("target", tgt, ps, Xs, req.traj_indices_s)):
+                trajs = list(man.trajectories)
+                if len(P) == 0:
+                    ctx.count(f"E:empty section cloud [{side}]")
+                ctx.check(len(P) == len(X) and (ti is None or len(ti) == len(P)), "E:section cloud arrays are aligned", {**wit, "side": side})
+                if len(P) != len(X):
+                    continue
+                ctx.check(bool(np.array_equal(P, X[:, pidx])), "E:section points are the plane coordinates of the section states", {**wit, "side": side})
+                if ti is None:
+                    ctx.count("E:no trajectory indices in the request — membership judged against all trajectories")
+                n_onsurf = {}
+                for k in range(len(X)):
+                    cand = [int(ti[k])] if ti is not None else range(len(trajs))
+                    ok, how = False, None
+                    for c in cand:
+                        if not (0 <= c < len(trajs)):
+                            continue
+                        S, g, ks = _crossings(trajs[c], ax, offset)
+                        # (a) a stored sample lying on the surface within the detector's on-surface tolerance (documented rule; the
+                        #     tolerance itself is not part of this property: anything up to 1e-4 is accepted for a stored sample)
+                        d = np.abs(S - X[k]).max(axis=1)
+                        j = int(np.argmin(d))
+                        if d[j] <= 1e-12 and abs(g[j]) <= 1e-4:
+                            ok, how = True, "sample"
+                            n_onsurf[c] = n_onsurf.get(c, 0) + 1
+                            break
+                        # (b) an interpolated point inside a segment across which the section function changes sign
+                        for kk in ks:
+                            lo, hi = np.minimum(S[kk], S[kk + 1]), np.maximum(S[kk], S[kk + 1])
+                            slack = 0.25 * (hi - lo) + 1e-9          # cubic interpolation may overshoot the chord slightly
+                            if np.all(X[k] >= lo - slack) and np.all(X[k] <= hi + slack):
+                                ok, how = True, "crossing"
+                                break
+                        if ok:
+                            break
+                    ctx.check(ok, "E:every section point of the search is a crossing of a trajectory of its own manifold (source first, target second)",
+                              lambda: {**wit, "side": side, "row": k, "state": X[k], "trajectory_index": None if ti is None else int(ti[k])})
+                    if how == "crossing":
+                        gk = abs(float(X[k, ax] - offset))
+                        ctx.stat("E:|section coordinate - offset| of interpolated section states", gk)
+                        ctx.check(gk <= 1e-9, "E:interpolated section states lie on the section plane", lambda: {**wit, "side": side, "row": k, "state": X[k]})
+                if direction is None and ti is not None:
+                    for c, tr in enumerate(trajs):
+                        S, g, ks = _crossings(tr, ax, offset)
+                        # crossings closer together than the detector's de-duplication window may legitimately merge, and on-surface
+                        # samples are extra hits by the documented rule: bounds, not equality
+                        n_lib = int(np.sum(np.asarray(ti) == c))
+                        n_near = int(np.sum(np.abs(g) <= 1e-4))
+                        ctx.check(len(set(ks)) - _close_pairs(S, ks) - n_near <= n_lib <= len(set(ks)) + n_near,
+                                  "E:every sign change of the section function along a manifold trajectory is a section point of the search (no direction filter)",
+                                  lambda: {**wit, "side": side, "trajectory": c, "library": n_lib, "sign_changes": len(ks), "samples_near_surface": n_near})
+            # the results themselves: brute force on the recorded clouds
+            ctx.count("E:connections reported by end-to-end solves", len(res))
+            ctx.notes.setdefault("endtoend_solves", []).append({"source": ksrc, "target": ktgt, "section": [axis_name, offset, plane], "direction": direction,
+                                                               "eps2d": eps, "delta_v_tol": dv_tol, "n_source_points": len(pu), "n_target_points": len(ps), "n_connections": len(res)})
+            if len(res):
+                ctx.count("E:end-to-end solves that reported at least one connection")
+            judge_clouds(ctx, "endtoend", 10 ** 6 + it, 1.0, pu, ps, Xu, Xs, req.traj_indices_u, req.traj_indices_s, eps, dv_tol, bal_tol, res)
+            # what the caller gets is what the search returned
+            got = list(getattr(ret, "connections", ret))
+            same = len(got) == len(res) and all(a.delta_v == b.delta_v and np.array_equal(a.state_u, b.state_u) and np.array_equal(a.state_s, b.state_s)
+                                                and a.kind == b.kind for a, b in zip(got, res))
+            ctx.check(same, "E:solve() returns the connections found by the search, in order", {**wit, "returned": len(got), "found": len(res)})
+            got2 = list(conn.results)
+            ctx.check(len(got2) == len(res) and all(a.delta_v == b.delta_v for a, b in zip(got2, res)), "E:pipeline.results reflects the last solve", wit)
+    finally:
+        _ConnectionsBackend.run = orig
+
+
+def _close_pairs(S, ks):
+    """number of crossings that have another crossing within two samples (candidates for legitimate de-duplication)"""
+    ks = sorted(set(ks))
+    return sum(1 for a, b in zip(ks[:-1], ks[1:]) if b - a <= 2)
 
 
 def run(ctx):
@@ -323,7 +506,10 @@ def run(ctx):
                      "(6 classes); non-trivial cloud case = at least one connection reported; distinct by input hash")
     guarded(ctx, "segments", segments, ctx, ctx.pick(20000, 1500000))
     guarded(ctx, "clouds", clouds, ctx, ctx.pick(1500, 60000))
+    guarded(ctx, "endtoend", endtoend, ctx, ctx.pick(8, 120))
     m = 1 if ctx.nshards > 1 else 10
     ctx.require("S:|p-q| is the true minimum distance of the two segments", 100 * m)
     ctx.require("K:pair is mutually nearest", 10 * m)
     ctx.require("K:refined points are the truly closest points of the local segments", 5 * m)
+    ctx.require("E:end-to-end solves that reported at least one connection", 1 if ctx.nshards > 1 else 2)
+    ctx.require("E:every section point of the search is a crossing of a trajectory of its own manifold (source first, target second)", 20 if ctx.nshards > 1 else 50)
